@@ -352,6 +352,17 @@ impl<'p> Interp<'p> {
                 let v = self.eval(x, env, st, sty)?;
                 self.apply(*id, f, vec![v], env, st, sty)?
             }
+            E::Spread(ids, fname, es) => {
+                let mut vs = vec![];
+                for e in es {
+                    vs.push(self.eval(e, env, st, sty)?);
+                }
+                let mut out = vec![];
+                for (i, v) in vs.into_iter().enumerate() {
+                    out.push(self.apply(ids[i], &E::Var(fname.clone()), vec![v], env, st, sty)?);
+                }
+                V::Tup(out)
+            }
             E::Pack(id, fname, fields, _dots) => {
                 let def: &FnDef = self.fns.get(fname.as_str()).copied().ok_or_else(|| Unsupported("pack into an unknown function".into()))?;
                 let pnames: Vec<String> = def.params.iter().map(|p| p.name.clone()).collect();
